@@ -435,7 +435,10 @@ pub fn record_offsets(output: &str) {
         let two_pi = 2.0 * std::f64::consts::PI;
         // limit representation classes: same arcs written as wrap-around ranges (from > to) on some joints
         if tries % 3 == 1 { for i in 0..6 { if r.gen_bool(0.4) { lim_from[i] += two_pi; } } }
-        let plain = OPWKinematics::new_with_constraints(Parameters::irb2400_10(), Constraints::new(lim_from, lim_to, BY_PREV));
+        // (every second robot has its limits written in degrees)
+        let limits = if tries % 2 == 1 { Constraints::from_degrees(std::array::from_fn(|i| lim_from[i].to_degrees()..=lim_to[i].to_degrees()), BY_PREV) }
+                     else { Constraints::new(lim_from, lim_to, BY_PREV) };
+        let plain = OPWKinematics::new_with_constraints(Parameters::irb2400_10(), limits);
         // every fourth robot is parallelogram coupled (J2 drives J3): the links behind a moved joint then do NOT move
         // as one rigid group
         let coupled = tries % 4 == 3;
@@ -485,7 +488,11 @@ pub fn record_offsets(output: &str) {
         // the scene is laid out for the candidate vector
         let body = scene::build(&scene, kin, &cand, &base_pose, safety_from(&table_json(&table), defaults.0, defaults.1, CheckMode::FirstCollisionOnly));
         // every second case asks through the robot with shape (kinematics + body), the others ask the body directly
-        let kws = rs_opw_kinematics::kinematics_with_shape::KinematicsWithShape { kinematics: kin_arc.clone(), body };
+        // (the robot with shape holds its kinematics the way its constructors build it: Tool(Base(robot)), both
+        //  transforms the identity here, so the bodies stay where the scene put them)
+        let stacked: std::sync::Arc<dyn Kinematics> = std::sync::Arc::new(rs_opw_kinematics::tool::Tool {
+            robot: std::sync::Arc::new(rs_opw_kinematics::tool::Base { robot: kin_arc.clone(), base: Isometry3::identity() }), tool: Isometry3::identity() });
+        let kws = rs_opw_kinematics::kinematics_with_shape::KinematicsWithShape { kinematics: stacked, body };
         let body = &kws.body;
         let through_shape = tries % 2 == 0;
         // precondition of the property: the initial vector is collision free (full check, brute force as well)
